@@ -12,7 +12,7 @@ use std::sync::atomic::{AtomicU64, Ordering};
 use std::sync::{Arc, Mutex};
 
 fn key(g: u64, j: u64) -> Vec<u8> {
-    format!("g{g:02}k{j}").into_bytes()
+    format!("g{g:02}k{j:07}").into_bytes()
 }
 fn val(i: u64, pad: usize) -> Vec<u8> {
     let mut v = format!("{i}|").into_bytes();
@@ -164,5 +164,92 @@ pub fn main(args: &[String]) -> ! {
     f.flush().unwrap();
     println!("RESULT {}", json!({"evaluations": 1, "steps": events.len(), "distinct": 1, "known": {}, "violations": [], "samples": [], "extra": {"hung": hung}}));
     // background threads never return: leave without joining them
+    std::process::exit(0);
+}
+
+/// vh ingest-stress <doc.json> <root> <out.ndjson>: threads calling LsmTree::ingest against running
+/// compaction threads, tiny thresholds; the watchdog reports calls that never return (C20).
+pub fn ingest_stress(args: &[String]) -> ! {
+    use sst::{Builder, SstBuilder, SstOptions};
+    let doc: Value = serde_json::from_str(&std::fs::read_to_string(&args[0]).unwrap()).unwrap();
+    inflight(&doc);
+    let root = std::path::PathBuf::from(&args[1]);
+    let _ = std::fs::remove_dir_all(&root);
+    let ingesters = doc["ingesters"].as_u64().unwrap_or(2);
+    let compactors = doc["compactors"].as_u64().unwrap_or(1);
+    let iters = doc["iters"].as_u64().unwrap_or(50);
+    let nkeys = doc["nkeys"].as_u64().unwrap_or(4);
+    let pad = doc["pad"].as_u64().unwrap_or(0) as usize;
+    let timeout = doc["timeout"].as_u64().unwrap_or(60);
+    let mut a: Vec<String> = vec!["--path".into(), root.to_string_lossy().to_string()];
+    if let Some(m) = doc["opts"].as_object() {
+        for (k, v) in m {
+            a.push(format!("--{k}"));
+            a.push(match v { Value::String(s) => s.clone(), x => x.to_string() });
+        }
+    }
+    let refs: Vec<&str> = a.iter().map(|s| s.as_str()).collect();
+    let (o, _) = LsmtkOptions::from_arguments_relaxed("vh", &refs);
+    let tree = Arc::new(lsmtk::LsmTree::open(o).unwrap_or_else(|e| tool_error(&format!("open: {e:?}"))));
+    lsmtk::verif::set_yield_seed(doc["yield_seed"].as_u64().unwrap_or(0));
+    let seq = Arc::new(AtomicU64::new(1));
+    let ts = Arc::new(AtomicU64::new(10));
+    let log = Arc::new(Mutex::new(Vec::<Value>::new()));
+    let finished = Arc::new(AtomicU64::new(0));
+    let errors = Arc::new(Mutex::new(Vec::<String>::new()));
+    for _ in 0..compactors {
+        let t = Arc::clone(&tree);
+        let e = Arc::clone(&errors);
+        std::thread::spawn(move || { if let Err(err) = t.compaction_thread() { e.lock().unwrap().push(format!("compaction thread: {err:?}").chars().take(300).collect()); } });
+    }
+    for g in 0..ingesters {
+        let (tree, seq, ts, log, finished, root) = (Arc::clone(&tree), Arc::clone(&seq), Arc::clone(&ts), Arc::clone(&log), Arc::clone(&finished), root.clone());
+        std::thread::spawn(move || {
+            let mut x = 0x2545F4914F6CDD1Du64 ^ (g + 1);
+            for i in 0..iters {
+                x ^= x << 13; x ^= x >> 7; x ^= x << 17;
+                let path = root.join("ingest").join(format!("g{g}i{i}.sst"));
+                let mut b = SstBuilder::new(SstOptions::default(), &path).unwrap();
+                let mut ks: Vec<u64> = vec![x % nkeys, (x >> 9) % nkeys];
+                ks.sort();
+                ks.dedup();
+                for k in ks {
+                    let t = ts.fetch_add(1, Ordering::SeqCst);
+                    b.put(&key(0, k), t, &val(t, pad)).unwrap();
+                }
+                b.seal().unwrap();
+                let n = seq.fetch_add(1, Ordering::SeqCst);
+                log.lock().unwrap().push(json!({"n": n, "ev": "ib", "g": g + 1, "i": i + 1}));
+                let r = tree.ingest(&path);
+                let n = seq.fetch_add(1, Ordering::SeqCst);
+                log.lock().unwrap().push(json!({"n": n, "ev": "ie", "g": g + 1, "i": i + 1, "ok": r.is_ok(),
+                                                 "err": r.err().map(|e| format!("{e:?}").chars().take(200).collect::<String>()).unwrap_or_default()}));
+                let _ = std::fs::remove_file(&path);
+            }
+            finished.fetch_add(1, Ordering::SeqCst);
+        });
+    }
+    let start = std::time::Instant::now();
+    let mut hung = false;
+    while finished.load(Ordering::SeqCst) < ingesters {
+        if start.elapsed().as_secs() > timeout {
+            hung = true;
+            break;
+        }
+        std::thread::sleep(std::time::Duration::from_millis(5));
+    }
+    let l0 = tree.verif_levels()[0].len();
+    let mut events = log.lock().unwrap().clone();
+    events.sort_by_key(|e| e["n"].as_u64().unwrap());
+    let mut f = std::io::BufWriter::new(std::fs::File::create(&args[2]).unwrap());
+    writeln!(f, "{}", json!({"n": 0, "ev": "start", "ingesters": ingesters, "iters": iters, "compactors": compactors})).unwrap();
+    for e in &events {
+        writeln!(f, "{e}").unwrap();
+    }
+    let errs = errors.lock().unwrap().clone();
+    writeln!(f, "{}", json!({"n": seq.load(Ordering::SeqCst), "ev": if hung { "hang" } else { "end" }, "finished": finished.load(Ordering::SeqCst),
+                              "l0_files": l0, "thread_errors": errs})).unwrap();
+    f.flush().unwrap();
+    println!("RESULT {}", json!({"evaluations": 1, "steps": events.len(), "distinct": 1, "known": {}, "violations": [], "samples": [], "extra": {"hung": hung}}));
     std::process::exit(0);
 }
